@@ -2,7 +2,7 @@
 from .core import *
 
 TEXT = {
- "C08": dict(sub="c08", rule="programs from the generator (6 dialects) with `-- stylua: ignore` before random statements at any nesting depth, `ignore start` / `ignore end` regions inside blocks, and ignored fields of a multi-line table (one of them holding a function with a body); every program under its default configuration, a random configuration, and the default configuration with a range drawn anywhere (an ignored node is verbatim whatever the range); "
+ "C08": dict(sub="c08", rule="programs from the generator (6 dialects) with `-- stylua: ignore` before random statements at any nesting depth, `ignore start` / `ignore end` regions inside blocks, and ignored fields of a multi-line table (one of them holding a function with a body); one program in two starts with require groups under an ignore region that opens / closes in front of a require or of an ordinary statement; every program under its default configuration, a random configuration, the default configuration with sort_requires, and the default configuration with a range drawn anywhere (an ignored node is verbatim whatever the range); "
              "each under its default and one random configuration; every outermost ignored statement (with its semicolon) and table field is cut out of input and output by byte position and compared",
              corr="byte equality of every ignored node's source slice with the slice of the node at the same block path in the re-parsed output; statement counts per block equal"),
  "C09": dict(sub="c09", rule="programs from the generator, each under 2 configurations x 4 range shapes (exactly one statement; from one statement to another; arbitrary bytes, mid-token; empty); every statement of every block classified by byte position",
